@@ -58,7 +58,7 @@ def queries(tier):
     for c in shifts:
         d = dict(OP=4, YK=0, SHIFT='(%d)' % c)
         us = {'log2i.0': 66}
-        if tier != 'quick' or c in (1, 63, -1):
+        if tier != 'quick' or c in (1, 63):
             q('shift[fixnum,c=%d]' % c, dict(d, XK=0, **sd(0, c)), 'sexp_arithmetic_shift', unwind=8, unwindset=us, backends=pf)
         for v in fix:
             if v == 0 and c > 1:
